@@ -205,6 +205,17 @@ def run_case(ctx, kind_, idx):
             return
         ctx.violation("n_below_2_accepted", cid, {"n": bad_n, "case": R.brief(strat, x, y, n, kw, meta)})
         return
+    if np.any(x == 0.0) and rng.integers(0, 2):
+        # the request served just before this one asked for the same abscissae, except that its zero had the other sign
+        # (0.0 == -0.0 and both hash alike: an answer remembered per "equal" grid would carry the wrong zero over)
+        xt = np.array(x, dtype=float)
+        xt[xt == 0.0] = -xt[xt == 0.0]
+        try:
+            rfa.PiecewiseConstantRFA(xt, np.array(y, dtype=float), int(n)).rfa()
+            meta["earlier_request_with_the_other_zero"] = True
+            ctx.count("earlier_request_with_the_other_zero")
+        except Exception:
+            pass
     before = ctx.monitors.get("rfa_post", 0)
     try:
         with fp_watch(ctx) as fpw:
